@@ -136,14 +136,14 @@ def oracle(case_line, out):
 
 
 def project(out):
-    # the bundle column exists on the Rust side only
-    try:
-        o = sexp.loads(out)
-    except ValueError:
-        return out
-    if sexp.tag(o) == 'ok' and len(o) == 5:
-        return sexp.dumps(o[:4])
-    if sexp.tag(o) == 'PANIC':
+    # the bundle column exists on the Rust side only (atoms contain no blanks or parentheses)
+    if out.startswith('(ok '):
+        if out.endswith(' none)'):
+            return out[:-6] + ')'
+        k = out.rfind(' (some ')
+        if k > 0:
+            return out[:k] + ')'
+    if out.startswith('(PANIC'):
         return '(PANIC)'
     return out
 
